@@ -253,6 +253,62 @@ func init() {
 				flushCorr()
 			}
 		}
+		// every family against every family (one representative id each, a different one per seed), and every ordered pair
+		// of ids inside every family, in the four +/no+ combinations: a slip that concerns one particular pair of families
+		// or one particular version step cannot hide behind the random choice of families above
+		for fi, f := range tblRanges {
+			var fids []string
+			for _, g := range f {
+				for _, id := range g {
+					if !strings.HasSuffix(id, "+") && !strings.HasSuffix(id, "-or-later") {
+						fids = append(fids, id)
+					}
+				}
+			}
+			if len(fids) == 0 {
+				continue
+			}
+			for gi, g := range tblRanges {
+				if gi == fi {
+					continue
+				}
+				var gids []string
+				for _, gr := range g {
+					for _, id := range gr {
+						if !strings.HasSuffix(id, "+") && !strings.HasSuffix(id, "-or-later") {
+							gids = append(gids, id)
+						}
+					}
+				}
+				if len(gids) == 0 {
+					continue
+				}
+				a, b := fids[int(seed)%len(fids)], gids[(int(seed)+gi)%len(gids)]
+				for _, pa := range []bool{false, true} {
+					for _, pb := range []bool{false, true} {
+						if fl := c02Pair(mkTerm(a, "", pa, "", -1), mkTerm(b, "", pb, "", -1), true); fl != nil {
+							fail(*fl)
+						}
+						count("family_x_family")
+					}
+				}
+			}
+			for _, a := range fids {
+				for _, b := range fids {
+					for _, pa := range []bool{false, true} {
+						for _, pb := range []bool{false, true} {
+							if fl := c02Pair(mkTerm(a, "", pa, "", -1), mkTerm(b, "", pb, "", -1), true); fl != nil {
+								fail(*fl)
+							}
+							count("within_family_all")
+						}
+					}
+				}
+			}
+			if len(corrQ) > 50000 {
+				flushCorr()
+			}
+		}
 		sample(map[string]interface{}{"a": terms[0].text, "b": terms[1].text})
 		sample(map[string]interface{}{"a": terms[len(terms)/2].text + " WITH " + e1, "b": terms[len(terms)/2+1].text + " WITH " + e2})
 		res.Exhaustive = thorough()
